@@ -347,6 +347,9 @@ func (e *Engine) resolveKey(k string) (string, error) {
 			return cand, nil
 		}
 	}
+	if strings.HasPrefix(s, "struct_") {
+		return s, nil // function-valued field of an anonymous struct type (keyed by its heap origin)
+	}
 	return "", fmt.Errorf("cannot resolve function %q (tried %s and %s)", s, c1, s)
 }
 
